@@ -9,8 +9,8 @@
 
 using namespace c08;
 
-// Calibration (pristine tree, 7.2e8 vectors of the thorough tier + quick seeds 1..5): worst observed
-// lengthTiny path 2.81 ulps (Vec4f) / 2.69 (Vec4d); sqrt path 2.04 (Vec4f) / 1.94 (Vec4d).
+// Calibration (pristine tree, 1.5e9 vectors of the thorough tier + quick seeds 1..5): worst observed
+// lengthTiny path 2.81 ulps (Vec4f) / 2.74 (Vec4d); sqrt path 2.22 (Vec4f) / 1.94 (Vec4d).
 // Bounds = 8 x worst, rounded up.  The path is inferred from dot < 2*min (not from the library).
 static const double C_LEN_TINY = 24.0, C_LEN_SQRT = 18.0;
 
@@ -60,7 +60,7 @@ length_case (Ctx& c, uint64_t idx, Counts& k, Worst (&w)[3][2])
     Worst& ww = w[N - 2][tiny ? 0 : 1];
     if (u > ww.ratio) { ww.ratio = u; ww.idx = idx; ww.desc = desc (); }
     if (!(u <= (tiny ? C_LEN_TINY : C_LEN_SQRT))) c.fail (tname ("length", N, FP<T>::tag ()) + ":" + path, idx, desc);
-    if ((idx % 1000003) == 7) c.sample (cls_name[cls], desc);
+    if (idx / 24 == 777) c.sample (cls_name[cls], desc);
 }
 
 template <class T> static void
@@ -89,11 +89,11 @@ sub_length (Ctx& c, uint64_t b, uint64_t e)
 static void sub_length_f (Ctx& c, uint64_t b, uint64_t e) { sub_length<float> (c, b, e); }
 static void sub_length_d (Ctx& c, uint64_t b, uint64_t e) { sub_length<double> (c, b, e); }
 
-MON_SUB (sub_length_f, "length_float", 6000000, 480000000)
+MON_SUB (sub_length_f, "length_float", 30000000, 1000000000)
     .req (C08_REQ_CLASSES)
     .chunked (8192)
     .over ("Vec2/3/4<float>::length vs long double norm, in ulps of the result (subnormal grid included); 8 input classes x 3 dimensions, exponents swept from 2^-149 to sqrt(max)/2, dense around |v|^2 = 2*min; length == 0 iff zero vector");
-MON_SUB (sub_length_d, "length_double", 3000000, 240000000)
+MON_SUB (sub_length_d, "length_double", 15000000, 500000000)
     .req (C08_REQ_CLASSES)
     .chunked (8192)
     .over ("Vec2/3/4<double>::length vs __float128 norm, in ulps of the result; same classes, exponents swept from 2^-1074 to sqrt(max)/2");
@@ -130,7 +130,7 @@ length2_case (Ctx& c, uint64_t idx, Counts& k)
     if (FP<T>::bits (got) != FP<T>::bits (d2)) c.fail (tname ("length2", N, FP<T>::tag ()) + ":ne_operator_dot", idx, desc);
     if (FP<T>::bits (got) != FP<T>::bits (d3)) c.fail (tname ("length2", N, FP<T>::tag ()) + ":ne_sum_of_squares", idx, desc);
     if (!std::isfinite (got)) c.fail (tname ("length2", N, FP<T>::tag ()) + ":nonfinite", idx, desc);
-    if ((idx % 1000003) == 11) c.sample (cls_name[cls], desc);
+    if (idx / 24 == 777) c.sample (cls_name[cls], desc);
 }
 template <class T> static void
 sub_length2 (Ctx& c, uint64_t b, uint64_t e)
@@ -149,11 +149,11 @@ sub_length2 (Ctx& c, uint64_t b, uint64_t e)
 }
 static void sub_length2_f (Ctx& c, uint64_t b, uint64_t e) { sub_length2<float> (c, b, e); }
 static void sub_length2_d (Ctx& c, uint64_t b, uint64_t e) { sub_length2<double> (c, b, e); }
-MON_SUB (sub_length2_f, "length2_float", 3000000, 120000000)
+MON_SUB (sub_length2_f, "length2_float", 12000000, 240000000)
     .req (C08_REQ_CLASSES)
     .chunked (8192)
     .over ("Vec2/3/4<float>::length2 == v.dot(v) == v^v == loop sum of squares, bit for bit (same input classes as length)");
-MON_SUB (sub_length2_d, "length2_double", 3000000, 120000000)
+MON_SUB (sub_length2_d, "length2_double", 12000000, 240000000)
     .req (C08_REQ_CLASSES)
     .chunked (8192)
     .over ("Vec2/3/4<double>::length2 == v.dot(v) == v^v == loop sum of squares, bit for bit");
